@@ -78,7 +78,8 @@ CLAIMED = {
             'Clause: in mpf_pow_int every intermediate truncation is directed by (mode, sign of result), '
             'negative exponents swap the mode for the inner power and add precision, the exact path is '
             'independent of the precision and rounded once, and the final rounding uses the caller\'s '
-            'mode - the conditions under which a directed result cannot cross x**n.  Ulp bounds are not '
+            'mode - the conditions under which a directed result cannot cross x**n.  In the power kernels a divisor '
+            'produced under a rounding mode gets reciprocal_rnd[rnd], never the caller\'s mode (B-R13).  Ulp bounds are not '
             'decided.',
             'Trusts mpf_div/normalize (C02) and the monotonicity argument of binary exponentiation.',
             'DESIGN.md section 2, Engine B (B-R5)'),
@@ -440,7 +441,7 @@ CLAIMED = {
             'rounds to exactly 53 bits in the requested mode before ldexp, maps the specials, and resolves '
             'overflow by the sign of the number and the size of the exponent; float()/complex() use the context '
             'mode (half-even by default) and convert both parts alike.  That normalize1 rounds to nearest-even is '
-            'C02\'s clause; frexp/ldexp are CPython\'s.  Every __float__ / __complex__ of the package (the interval numbers too) passes a rounding mode to to_float (V-R6), and a Python complex operand of an mpf is converted exactly (V-R7); both found as genuine defects and repaired.',
+            'C02\'s clause; frexp/ldexp are CPython\'s.  Every __float__ / __complex__ of the package (the interval numbers too) passes a rounding mode to to_float (V-R6), and a Python complex operand of an mpf is converted exactly (V-R7); both found as genuine defects and repaired.  to_float drops no bits of the stored fields outside its one 53-bit rounding call (V-R8).',
             'Gradual underflow (denormals) is outside what to_float documents and is not decided.',
             'DESIGN.md section 10 (C09)'),
     'C39': ('N-class-domain',
